@@ -138,8 +138,9 @@ Fixpoint nodup_nat (l : list nat) : bool :=
   match l with [] => true | x :: t => negb (existsb (Nat.eqb x) t) && nodup_nat t end.
 Definition admissible_b (tbl : list entry) (step : Z) (cycles : nat) (fidx : list nat) (free : list Z) : bool :=
   let fn := forced (due_moves tbl step) in
+  match due_moves tbl step with [] => true | _ => 
   nodup_nat fidx && forallb (fun j => (j <? cycles)%nat) fidx && Nat.eqb (length fidx) (length fn)
-  && (free_needed (lookup fidx fn) 0 cycles <=? length free)%nat && forallb (free_ok tbl step) free.
+  && (free_needed (lookup fidx fn) 0 cycles <=? length free)%nat && forallb (free_ok tbl step) free end.
 (* result: [1 if admissible else 0] ++ names ++ [-7] ++ (name, weight)* of the requested free-slot law (if asked) *)
 Definition c09_case (x : nat * list entry * Z * list nat * list Z * bool) : list Z :=
   let '(cycles, es, step, fidx, free, want_law) := x in
